@@ -46,6 +46,39 @@ def extract(ctx):
     t = tag_loops(t, 'handle', rw, expect=2)
     out.append(t)
     common.write(ctx, 'cpq.inc', pq.struct_decl() + '\n'.join(out))
+    # ---- aggregator_generic: the hand-off that makes the handler sequential ---------------------
+    AG = 'include/oneapi/tbb/detail/_aggregator.h'
+    rwa = Rewriter('aggregator')
+    W = r'class aggregator_generic \{'
+    outa = []
+    s = slice_block(AG, r'void start_handle_operations\( HandlerType& handle_operations \)', within=W)
+    sliced.append('%s:%d aggregator_generic::start_handle_operations' % (AG, s.line))
+    t = rwa.sub(s.text, r'void start_handle_operations\( HandlerType& handle_operations \)', 'static void agg_start_handle_operations(struct agg* self)', 1, 1, name='sig (handler bound to a stub)')
+    t = rwa.sub(t, r'call_itt_notify\([^;]*\);', 'RG_NOP();', 3, name='itt -> RG_NOP')
+    t = rwa.sub(t, r'spin_wait_until_eq\(handler_busy, uintptr_t\(0\)\);', 'SPIN_WAIT_UNTIL_EQ(self->handler_busy, 0);', 1, 1, name='spin-wait')
+    t = rwa.sub(t, r'(?<![\w.>])(handler_busy|pending_operations)\.', r'self->\1.', 3, name='field')
+    t = rwa.atomics(t, ['handler_busy', 'pending_operations'], 3)
+    t = rwa.sub(t, r'handle_operations\(op_list\);', 'STUB_handle_operations(op_list);', 1, 1, name='handler -> stub')
+    t = rwa.sub(t, r'OperationType\*', 'struct op*', 1, name='bind-template')
+    t = rwa.std(t)
+    t = rwa.number_sites(t, 'sho', by_kind=True)
+    outa.append(t)
+    s = slice_block(AG, r'void execute\( OperationType\* op, HandlerType& handle_operations, bool long_life_time = true \)', within=W)
+    sliced.append('%s:%d aggregator_generic::execute' % (AG, s.line))
+    t = rwa.sub(s.text, r'void execute\( OperationType\* op, HandlerType& handle_operations, bool long_life_time = true \)', 'static void agg_execute(struct agg* self, struct op* op, bool long_life_time)', 1, 1, name='sig')
+    t = rwa.sub(t, r'call_itt_notify\([^;]*\);', 'RG_NOP();', 3, name='itt -> RG_NOP')
+    t = rwa.sub(t, r'start_handle_operations\(handle_operations\);', 'agg_start_handle_operations(self);', 1, 1, name='method')
+    t = rwa.sub(t, r'spin_wait_while_eq\(op->status, uintptr_t\(0\)\);', 'SPIN_WAIT_WHILE_EQ(op->status, 0);', 1, 1, name='spin-wait')
+    t = rwa.sub(t, r'(?<![\w.>])pending_operations\.', 'self->pending_operations.', 2, name='field')
+    t = rwa.atomics(t, ['pending_operations', 'status', 'next'], 4)
+    t = rwa.sub(t, r'OperationType\*', 'struct op*', 1, name='bind-template')
+    t = rwa.asserts(t, 2)
+    t = rwa.std(t)
+    t = rwa.number_sites(t, 'exe', by_kind=True)
+    t = tag_loops(t, 'exe', rwa, expect=1)
+    outa.append(t)
+    common.write(ctx, 'agg.inc', '\n'.join(outa) + '\n')
+    fired['aggregator'] = rwa.fired
     sliced += pq.sliced
     fired['concurrent_priority_queue'] = rw.fired
     return sliced, fired
@@ -56,6 +89,7 @@ def build(ctx):
     C = os.path.join(HERE, 'c13.c')
     q, th = (6, 9) if ctx.tier == 'quick' else (9, 13)
     jobs = [
+        Job('agg.execute', C, 'h_agg', route='RG', defines=['AGG'], loops=True, nloops=1, timeout=600, target='aggregator_generic::execute + start_handle_operations (single handler, every operation in exactly one batch)', source='include/oneapi/tbb/detail/_aggregator.h'),
         Job('book.reheap', C, 'h_reheap_lc', route='LC', loops=True, nloops=1, defines=['LCMODE'], timeout=600, target='concurrent_priority_queue::reheap (bookkeeping + memory safety, every size)', source=PQ),
         Job('book.heapify', C, 'h_heapify_lc', route='LC', loops=True, nloops=2, defines=['LCMODE'], timeout=600, target='concurrent_priority_queue::heapify (bookkeeping + memory safety, every size)', source=PQ),
         Job('heap.reheap', C, 'h_reheap', route='BD', bound_text='heap of at most %d elements, arbitrary int keys' % q, defines=['MAXN=%d' % q], unwind=q + 6, timeout=900,
